@@ -72,10 +72,38 @@ REGIONS = {
 }
 
 
-def region_hyps(C):
+def _region_withoptions_defaults():
+    force = z3.Function("fld!WithOptions.force", T.Ev, T.B)(SELF)
+    P = z3.Function("fld!WithOptions.options", T.Ev, T.Opt)(SELF)
+    return [z3.Implies(z3.Not(force), z3.And(T.noshadow(O1, P), T.noshadow(O2, P)))]
+
+
+def _region_withoptions_explain():
+    force = z3.Function("fld!WithOptions.force", T.Ev, T.B)(SELF)
+    P = z3.Function("fld!WithOptions.options", T.Ev, T.Opt)(SELF)
+    return [z3.Implies(force, T.noshadow(P, O1))]
+
+
+REGIONS["WithOptions"] = [
+    ("F24", "a scalar in the caller's options where the default options hold a section (the scalar shadows the defaults below it)",
+     _region_withoptions_defaults, None),
+    ("F24", "a pre-set scalar where the caller's options hold a section: explain lists caller keys the pre-set scalar hides",
+     _region_withoptions_explain, ("L5", "L5b")),
+]
+
+
+# validate() of these classes consults cache state (a warm entry short-cuts validation): restriction-stability of validate
+# is stated for them only through evaluate (C10), not as part of L2
+STATEFUL_VALIDATE = ("Cached", "Dataset")
+
+
+def region_hyps(C, law=None):
     out = []
-    for fid, text, mk in REGIONS.get(C, []):
-        out += mk()
+    for ent in REGIONS.get(C, []):
+        fid, text, mk = ent[:3]
+        only = ent[3] if len(ent) > 3 else None
+        if only is None or law in only:
+            out += mk()
     return out
 
 
@@ -127,7 +155,9 @@ class Runs:
     def __init__(self, repo, ci, extra_config=None):
         self.repo, self.ci = repo, ci
         self.cache = {}
-        self.config = {"abstract_classes": ABSTRACT.get(ci.name, ABSTRACT["default"]), "temp_contract": temp_contract}
+        from .cache_model import sound_backend
+        self.config = {"abstract_classes": ABSTRACT.get(ci.name, ABSTRACT["default"]), "temp_contract": temp_contract,
+                       "cache_model": sound_backend}
         if extra_config:
             self.config.update(extra_config)
 
@@ -152,6 +182,11 @@ def base(ci, which=("L1", "L2", "L3", "L4a", "L5", "L5d", "L6", "L6v")):
         hyps += inv(SELF)
     hyps += region_hyps(ci.name)
     return hyps
+
+
+def extra_region(ci, law):
+    """region hypotheses that apply to one law only"""
+    return [h for ent in REGIONS.get(ci.name, []) if len(ent) > 3 and ent[3] is not None and law in ent[3] for h in ent[2]()]
 
 
 def pathcond(p):
@@ -223,7 +258,7 @@ def law_vcs(repo, ci, laws=("L1", "L2", "L3", "L6", "L6v", "L4a", "L5", "L5d", "
                 for j, e1 in enumerate(E1):
                     goal = z3.And(*[z3.Implies(pathcond(e2), outcome_equiv(e1, e2)) for e2 in E2])
                     vcs.append(VC(f"{C}:L2eval:keys#{i}:evaluate#{j}", hyp + p.pc + p.defs + rel + e1.pc + e1.defs, goal, {"law": "L2", "cls": C}))
-            if V2 is not None:
+            if V2 is not None and C not in STATEFUL_VALIDATE:
                 for j, v1 in enumerate(V1):
                     goal = z3.And(*[z3.Implies(pathcond(v2), outcome_equiv(v1, v2)) for v2 in V2])
                     vcs.append(VC(f"{C}:L2valid:keys#{i}:validate#{j}", hyp + p.pc + p.defs + rel + v1.pc + v1.defs, goal, {"law": "L2", "cls": C}))
@@ -257,7 +292,7 @@ def law_vcs(repo, ci, laws=("L1", "L2", "L3", "L6", "L6v", "L4a", "L5", "L5d", "
             if xp.kind != "ok":
                 continue
             X = xp.value[1]
-            pre = hyp + xp.pc + xp.defs
+            pre = hyp + extra_region(ci, "L5") + xp.pc + xp.defs
             # covers keys
             goal = z3.And(*[z3.Implies(pathcond(q), z3.IsSubset(q.value[1], X)) for q in K1 if q.kind == "ok"] or [z3.BoolVal(True)])
             vcs.append(VC(f"{C}:L5cover:explain#{i}", pre, goal, {"law": "L5", "cls": C}))
@@ -274,6 +309,10 @@ def law_vcs(repo, ci, laws=("L1", "L2", "L3", "L6", "L6v", "L4a", "L5", "L5d", "
                                        z3.And(z3.IsMember(T.mkey(exc_term(v)), X), z3.Not(T.has(O1, T.mkey(exc_term(v))))))
                             for v in V1 if v.kind == "exc"] or [z3.BoolVal(True)])
             vcs.append(VC(f"{C}:L5c:explain#{i}", pre, goal, {"law": "L5", "cls": C}))
+            goal = z3.And(*[z3.Implies(z3.And(pathcond(q), T.missing(exc_term(q))),
+                                       z3.And(z3.IsMember(T.mkey(exc_term(q)), X), z3.Not(T.has(O1, T.mkey(exc_term(q))))))
+                            for q in K1 if q.kind == "exc"] or [z3.BoolVal(True)])
+            vcs.append(VC(f"{C}:L5e:explain#{i}", pre, goal, {"law": "L5", "cls": C}))
     if "L5d" in laws and X1 is not None:
         for meth, ps in (("validate", V1), ("evaluate", E1)):
             for i, v in enumerate(ps or []):
